@@ -250,6 +250,17 @@ class MCIntegrator:
         self._is_set = False
         self.issuper = self._c_ops[0].issuper
 
+    @property
+    def options(self):
+        return self._options
+
+    @options.setter
+    def options(self, new_options):
+        # The ODE options live in the wrapped integrator: hand them on, so
+        # that ``reset(hard=True)`` rebuilds the ODE solver with them.
+        self._options = new_options
+        self._integrator.options = new_options
+
     def set_state(self, t, state0, generator,
                   no_jump=False, jump_prob_floor=0.0):
         """
